@@ -7,6 +7,7 @@ import sys
 from concurrent.futures import ThreadPoolExecutor
 
 VERIF = os.path.dirname(os.path.dirname(os.path.abspath(__file__)))
+EXTRA = ""
 
 
 def one(arg):
@@ -14,7 +15,7 @@ def one(arg):
     wt = "/tmp/swr-" + sid
     subprocess.run("git -C /repo worktree remove --force %s; rm -rf %s; git -C /repo worktree add --detach %s HEAD" % (wt, wt, wt),
                    shell=True, stdout=subprocess.DEVNULL, stderr=subprocess.DEVNULL)
-    p = subprocess.run("python3 tools/seedtest.py %s %s %s --sandbox" % (mdir, wt, sid), shell=True, cwd=VERIF,
+    p = subprocess.run("python3 tools/seedtest.py %s %s %s --sandbox%s" % (mdir, wt, sid, EXTRA), shell=True, cwd=VERIF,
                        stdout=subprocess.PIPE, stderr=subprocess.STDOUT)
     subprocess.run("git -C /repo worktree remove --force %s; rm -rf %s" % (wt, wt), shell=True, stdout=subprocess.DEVNULL, stderr=subprocess.DEVNULL)
     out = p.stdout.decode("utf-8", "replace")
@@ -28,6 +29,10 @@ def main():
     j = 4
     if args and args[0] == "-j":
         j = int(args[1]); args = args[2:]
+    if args and args[0] == "--all":          # every property's check, not only the one named in meta.json
+        global EXTRA
+        EXTRA = " --props " + ",".join("C%02d" % i for i in range(1, 15))
+        args = args[1:]
     with ThreadPoolExecutor(max_workers=j) as ex:
         list(ex.map(one, args))
 
